@@ -690,8 +690,10 @@ fn sweep_class(c: &prov::ResourceClassEntitlements, o: &mut Vec<String>) -> Resu
         c.resource_set().ipv6(), c.not_after().to_rfc3339(), cert_id(c.signing_cert().cert()), c.signing_cert().url()));
     for i in c.issued_certs() { sweep_issued(i, o)? }
     // into_issuance_response(key): the first certificate issued to that key, or None
-    let mut keys: Vec<&rpki::crypto::PublicKey> = c.issued_certs().iter().map(|i| i.cert().subject_public_key_info()).collect();
-    keys.push(c.signing_cert().cert().subject_public_key_info());
+    let mut keys: Vec<&rpki::crypto::PublicKey> = Vec::new();
+    for k in c.issued_certs().iter().map(|i| i.cert().subject_public_key_info()).chain([c.signing_cert().cert().subject_public_key_info()]) {
+        if !keys.contains(&k) { keys.push(k) }   // one probe per distinct key
+    }
     for k in keys {
         let first = c.issued_certs().iter().find(|i| i.cert().subject_public_key_info() == k);
         let got = c.clone().into_issuance_response(k);
@@ -1517,6 +1519,250 @@ fn space_idexchange(ctx: &Ctx, fx: &Fx) {
     col.finish(true, &format!("star product, k = {k}"));
 }
 
+//============ Size and count as dimensions ==================================
+//
+// Every quantity that measures or counts something in a message is swept:
+// 0..=40, then k-1, k, k+1 around the powers of two up to the documented
+// maximum of the quantity or 2^20, with structured (position-dependent)
+// content. Same oracles as the small cases; the accessor checks look at the
+// first, middle and last element.
+
+/// 0..=40 and the neighbourhoods of the given powers of two, capped at `max`.
+fn scale_sizes(powers: &[u32], max: usize) -> Vec<usize> {
+    let mut v: Vec<usize> = (0..=40).collect();
+    for p in powers { let k = 1usize << p; v.extend([k - 1, k, k + 1]) }
+    v.retain(|n| *n <= max);
+    v.sort(); v.dedup();
+    v
+}
+
+fn pattern(n: usize, salt: usize) -> Vec<u8> { (0..n).map(|i| (i.wrapping_mul(31).wrapping_add(salt * 7 + 3) % 251) as u8).collect() }
+
+#[derive(Clone, Debug)]
+enum Sc {
+    /// one publish (kind 0) / update (1) with n octets of content
+    Content(usize, usize),
+    /// a delta of n elements: publish, update, withdraw in turn, 3-octet contents
+    Delta(usize),
+    /// a list reply with n entries
+    List(usize),
+    /// an error reply with n reports
+    Errors(usize),
+    /// a list response with n classes, each with one issued certificate
+    Classes(usize),
+    /// a list response with one class holding n issued certificates
+    Issued(usize),
+    /// a tag / class name of n characters (0: publish tag, 1: revoke class name, 2: publisher_request tag)
+    Text(usize, usize),
+    /// an rsync (0), rrdp https (1), service http (2) URI of n characters in a repository_response
+    Uri(usize, usize),
+    /// an ID certificate element of n octets in each of the four RFC 8183 documents
+    IdCert(usize, usize),
+}
+
+fn scale_uri(i: usize) -> uri::Rsync { uri::Rsync::from_str(&format!("rsync://host.example/module/dir/object-{i:07}.cer")).unwrap() }
+fn scale_hash(i: usize) -> Hash { Hash::from_data(&(i as u64).to_be_bytes()) }
+fn long_text(n: usize) -> String { (0..n).map(|i| match i % 13 { 0 => '&', 5 => '<', 9 => '"', 11 if i + 1 < n && i > 0 => ' ', _ => (b'a' + (i % 26) as u8) as char }).collect() }
+
+fn picks(n: usize) -> Vec<usize> { if n == 0 { vec![] } else { let mut v = vec![0, n / 2, n - 1]; v.dedup(); v } }
+
+fn scale_case(ctx: &Ctx, fx: &Fx, c: &Sc, l: &mut Local) {
+    let wit = || format!("scale.{c:?}");
+    match *c {
+        Sc::Content(kind, n) => {
+            let bytes = pattern(n, kind);
+            let content = Base64::from_content(&bytes);
+            let mut d = publ::PublishDelta::empty();
+            if kind == 0 { d.add_publish(publ::Publish::new(Some("t".into()), scale_uri(n), content)) }
+            else { d.add_update(publ::Update::with_hash_tag(scale_uri(n), content, scale_hash(n))) }
+            let m = publ::Message::delta(d);
+            roundtrip_g(ctx, "pub.scale", l, &m, &wit, &pub_write, &pub_parse, &|m| {
+                match m.clone().as_query().map(|q| match q { publ::Query::Delta(d) => d.into_elements(), _ => vec![] }) {
+                    Ok(els) if els.len() == 1 => match &els[0] {
+                        publ::PublishDeltaElement::Publish(p) => { agree!(p.content().to_bytes().as_ref(), bytes.as_slice(), "content().to_bytes() vs the content given"); Ok(()) }
+                        publ::PublishDeltaElement::Update(p) => { agree!(p.content().to_bytes().as_ref(), bytes.as_slice(), "content().to_bytes() vs the content given"); agree!(p.hash(), &scale_hash(n), "hash()"); Ok(()) }
+                        _ => Err("element kind".into()),
+                    },
+                    _ => Err("not a delta of one element".into()),
+                }
+            });
+        }
+        Sc::Delta(n) => {
+            let mut d = publ::PublishDelta::empty();
+            for i in 0..n { match i % 3 {
+                0 => d.add_publish(publ::Publish::new(if i % 2 == 0 { None } else { Some(format!("t{i}")) }, scale_uri(i), Base64::from_content(&pattern(3, i)))),
+                1 => d.add_update(publ::Update::new(Some(format!("t&{i}")), scale_uri(i), Base64::from_content(&pattern(i % 5, i)), scale_hash(i))),
+                _ => d.add_withdraw(publ::Withdraw::with_hash_tag(scale_uri(i), scale_hash(i))),
+            }}
+            let m = publ::Message::delta(d);
+            roundtrip_g(ctx, "pub.scale", l, &m, &wit, &pub_write, &pub_parse, &|m| {
+                let els = match m.clone().as_query() { Ok(publ::Query::Delta(d)) => { agree!(d.len(), n, "len()"); agree!(d.is_empty(), n == 0, "is_empty()"); d.into_elements() } _ => return Err("not a delta".into()) };
+                agree!(els.len(), n, "into_elements().len()");
+                for i in picks(n) {
+                    let u = match &els[i] { publ::PublishDeltaElement::Publish(p) if i % 3 == 0 => p.uri(), publ::PublishDeltaElement::Update(p) if i % 3 == 1 => p.uri(),
+                        publ::PublishDeltaElement::Withdraw(p) if i % 3 == 2 => p.uri(), _ => return Err(format!("element {i} of {n} has the wrong kind")) };
+                    agree!(u, &scale_uri(i), format!("uri() of element {i} of {n}"));
+                }
+                Ok(())
+            });
+        }
+        Sc::List(n) => {
+            let m = publ::Message::list_reply(publ::ListReply::new((0..n).map(|i| publ::ListElement::new(scale_uri(i), scale_hash(i))).collect()));
+            roundtrip_g(ctx, "pub.scale", l, &m, &wit, &pub_write, &pub_parse, &|m| {
+                let els = match m.clone().as_reply() { Ok(publ::Reply::List(r)) => r.into_elements(), _ => return Err("not a list reply".into()) };
+                agree!(els.len(), n, "elements().len()");
+                for i in picks(n) { agree!(els[i].uri(), &scale_uri(i), format!("uri() of entry {i} of {n}")); agree!(els[i].hash(), &scale_hash(i), format!("hash() of entry {i} of {n}")) }
+                Ok(())
+            });
+        }
+        Sc::Errors(n) => {
+            if n == 0 { return }   // an error reply without reports is an empty list reply on the wire
+            let mut r = publ::ErrorReply::empty();
+            for i in 0..n { r.add_error(publ::ReportError::with_code(CODES[i % 8].clone())) }
+            let m = publ::Message::error(r);
+            roundtrip_g(ctx, "pub.scale", l, &m, &wit, &pub_write, &pub_parse, &|m| {
+                match m.clone().as_reply() { Ok(publ::Reply::ErrorReply(e)) => { agree!(e.errors().len(), n, "errors().len()");
+                    for i in picks(n) { agree!(e.errors()[i], publ::ReportError::with_code(CODES[i % 8].clone()), format!("errors()[{i}] of {n}")) } Ok(()) }
+                    _ => Err("not an error reply".into()) }
+            });
+        }
+        Sc::Classes(n) | Sc::Issued(n) => {
+            let by_class = matches!(c, Sc::Classes(_));
+            let nc = fx.certs.len();
+            let issued = |i: usize| prov::IssuedCert::new(scale_uri(i), fx.limit(i % 3, (i / 3) % 3, (i / 9) % 3), fx.certs[i % nc].1.clone());
+            let class = |j: usize, certs: Vec<prov::IssuedCert>| prov::ResourceClassEntitlements::new(prov::ResourceClassName::from(format!("class {j}")),
+                ResourceSet::new(fx.asn[j % fx.asn.len()].clone(), fx.v4[j % fx.v4.len()].clone(), fx.v6[j % fx.v6.len()].clone()), fx.times[j % fx.times.len()], certs,
+                prov::SigningCert::new(scale_uri(1_000_000 + j), fx.certs[j % nc].1.clone()));
+            let classes: Vec<_> = if by_class { (0..n).map(|j| class(j, vec![issued(j)])).collect() } else { vec![class(0, (0..n).map(issued).collect())] };
+            let m = prov::Message::list_response(fx.handle(0), fx.handle(1), prov::ResourceClassListResponse::new(classes));
+            roundtrip_g(ctx, "prov.scale", l, &m, &wit, &prov_write, &prov_parse, &|m| {
+                let r = match m.payload() { prov::Payload::ListResponse(r) => r, _ => return Err("not a list response".into()) };
+                if by_class {
+                    agree!(r.classes().len(), n, "classes().len()");
+                    for j in picks(n) {
+                        agree!(r.classes()[j].class_name().as_ref(), format!("class {j}").as_str(), format!("class_name() of class {j} of {n}"));
+                        agree!(r.classes()[j].issued_certs()[0].uri(), &scale_uri(j), format!("issued uri of class {j} of {n}"));
+                        agree!(r.classes()[j].signing_cert().url(), &scale_uri(1_000_000 + j), format!("signing url of class {j} of {n}"));
+                    }
+                } else {
+                    agree!(r.classes()[0].issued_certs().len(), n, "issued_certs().len()");
+                    for i in picks(n) {
+                        let g = &r.classes()[0].issued_certs()[i];
+                        agree!(g.uri(), &scale_uri(i), format!("uri() of certificate {i} of {n}"));
+                        agree!(g.req_limit(), &fx.limit(i % 3, (i / 3) % 3, (i / 9) % 3), format!("req_limit() of certificate {i} of {n}"));
+                        agree!(cert_id(g.cert()), cert_id(&fx.certs[i % nc].1), format!("cert() of certificate {i} of {n}"));
+                    }
+                }
+                Ok(())
+            });
+        }
+        Sc::Text(field, n) => {
+            let t = long_text(n);
+            match field {
+                0 => { let mut d = publ::PublishDelta::empty(); d.add_withdraw(publ::Withdraw::new(Some(t.clone()), scale_uri(n), scale_hash(n)));
+                    roundtrip_g(ctx, "pub.scale", l, &publ::Message::delta(d), &wit, &pub_write, &pub_parse, &|m| match m.clone().as_query() {
+                        Ok(publ::Query::Delta(d)) => match &d.into_elements()[0] { publ::PublishDeltaElement::Withdraw(w) => { agree!(w.tag(), Some(&t), "tag()"); Ok(()) } _ => Err("kind".into()) },
+                        _ => Err("not a delta".into()) }) }
+                1 => { if n == 0 { return }
+                    let m = prov::Message::revoke(fx.handle(0), fx.handle(1), prov::RevocationRequest::new(prov::ResourceClassName::from(t.as_str()), fx.keys[2]));
+                    roundtrip_g(ctx, "prov.scale", l, &m, &wit, &prov_write, &prov_parse, &|m| match m.payload() {
+                        prov::Payload::Revoke(r) => { agree!(r.class_name().as_ref(), t.as_str(), "class_name()"); Ok(()) } _ => Err("kind".into()) }) }
+                _ => { let m = idx::PublisherRequest::new(Base64::from_content(b"ABC"), fx.handle(0), Some(t.clone()));
+                    roundtrip_g(ctx, "idex.scale", l, &m, &wit, &|m| m.to_xml_vec(), &|b| idx::PublisherRequest::parse(b).map_err(idx_err), &|m| { agree!(m.tag(), Some(&t), "tag()"); Ok(()) }) }
+            }
+        }
+        Sc::Uri(field, n) => {
+            let fill = |prefix: &str| -> Option<String> { if n < prefix.len() + 1 { None } else { Some(format!("{prefix}{}", (0..n - prefix.len()).map(|i| if i % 17 == 16 { '&' } else { (b'a' + (i % 26) as u8) as char }).collect::<String>())) } };
+            let (sia, rrdp, svc) = match field {
+                0 => (fill("rsync://h/m/"), Some("https://h/n.xml".to_string()), Some("https://h/s".to_string())),
+                1 => (Some("rsync://h/m/".to_string()), fill("https://h/"), Some("https://h/s".to_string())),
+                _ => (Some("rsync://h/m/".to_string()), None, fill("http://h/")),
+            };
+            let (Some(sia), Some(svc)) = (sia, svc) else { return };
+            if field == 1 && rrdp.is_none() { return }
+            let (Ok(sia), Ok(rrdp)) = (uri::Rsync::from_str(&sia), rrdp.map(|r| uri::Https::from_str(&r)).transpose()) else { return };
+            let svc = if field == 2 { idx::ServiceUri::Http(svc) } else { match idx::ServiceUri::from_str(&svc) { Ok(s) => s, Err(_) => return } };
+            let m = idx::RepositoryResponse::new(Base64::from_content(b"ABC"), fx.handle(0), svc.clone(), sia.clone(), rrdp.clone(), None);
+            roundtrip_g(ctx, "idex.scale", l, &m, &wit, &|m| m.to_xml_vec(), &|b| idx::RepositoryResponse::parse(b).map_err(idx_err), &|m| {
+                agree!(m.sia_base(), &sia, "sia_base()"); agree!(m.rrdp_notification_uri(), rrdp.as_ref(), "rrdp_notification_uri()"); agree!(m.service_uri(), &svc, "service_uri()"); Ok(()) });
+        }
+        Sc::IdCert(doc, n) => {
+            if n == 0 { return }   // an ID certificate of zero octets is not protocol-valid
+            let bytes = pattern(n, doc);
+            let id = Base64::from_content(&bytes);
+            let chk = |got: &Base64| -> Result<(), String> { agree!(got.to_bytes().as_ref(), bytes.as_slice(), "id_cert().to_bytes() vs the content given"); Ok(()) };
+            match doc {
+                0 => roundtrip_g(ctx, "idex.scale", l, &idx::ChildRequest::new(id, fx.handle(0)), &wit, &|m| m.to_xml_vec(), &|b| idx::ChildRequest::parse(b).map_err(idx_err), &|m| chk(m.id_cert())),
+                1 => roundtrip_g(ctx, "idex.scale", l, &idx::ParentResponse::new(id, fx.handle(0), fx.handle(1), fx.services[fx.svc_special].clone(), None), &wit, &|m| m.to_xml_vec(), &|b| idx::ParentResponse::parse(b).map_err(idx_err), &|m| chk(m.id_cert())),
+                2 => roundtrip_g(ctx, "idex.scale", l, &idx::PublisherRequest::new(id, fx.handle(0), None), &wit, &|m| m.to_xml_vec(), &|b| idx::PublisherRequest::parse(b).map_err(idx_err), &|m| chk(m.id_cert())),
+                _ => roundtrip_g(ctx, "idex.scale", l, &idx::RepositoryResponse::new(id, fx.handle(0), fx.services[fx.svc_plain].clone(), fx.rsyncs[0].clone(), None, None), &wit, &|m| m.to_xml_vec(), &|b| idx::RepositoryResponse::parse(b).map_err(idx_err), &|m| chk(m.id_cert())),
+            }
+        }
+    }
+}
+
+fn space_scale(ctx: &Ctx, fx: &Fx) {
+    let th = ctx.tier.is_thorough();
+    let sp = ctx.space("scale",
+        "size and count as dimensions, all three protocols: object content of one publish / update, number of delta elements, list-reply entries, error reports, classes per list response, issued certificates per class, characters of a tag / class name (documented maximum 1024), of an rsync / https / http URI (documented maximum 4096), octets of the ID certificate element of each RFC 8183 document; each swept through 0..=40 and k-1, k, k+1 around powers of two (content and ID certificate: 64 .. 2^20, thorough also 4 MiB; small elements: 64 .. 16384, thorough also 65536; classes / certificates: 64 .. 1024, thorough also 4096 and 8192) with position-dependent content; written documents cross 64 KiB and 1 MB (thorough: 10 MB); oracles as everywhere (well-formed, parses back equal, accessors consistent / as given at first, middle, last / twin); non-trivial = distinct written documents");
+    let col = Collector::new(sp.clone());
+    let big = [6u32, 7, 8, 10, 12, 14, 16, 18, 20];
+    let small_el: &[u32] = if th { &[6, 7, 8, 10, 12, 13, 14, 16] } else { &[6, 7, 8, 10, 12, 13, 14] };
+    let certs: &[u32] = if th { &[6, 7, 8, 10, 12, 13] } else { &[6, 7, 8, 10] };
+    let mut cases: Vec<Sc> = Vec::new();
+    let mut content = scale_sizes(&big, usize::MAX);
+    if th { content.extend([(4 << 20) - 1, 4 << 20, (4 << 20) + 1]) }
+    for n in &content { for kind in 0..2 { cases.push(Sc::Content(kind, *n)) } for doc in 0..4 { if *n <= (1 << 20) + 1 { cases.push(Sc::IdCert(doc, *n)) } } }
+    for n in scale_sizes(small_el, usize::MAX) { cases.push(Sc::Delta(n)); cases.push(Sc::List(n)); if n <= 4097 { cases.push(Sc::Errors(n)) } }
+    for n in scale_sizes(certs, usize::MAX) { cases.push(Sc::Classes(n)); cases.push(Sc::Issued(n)) }
+    for n in scale_sizes(&[6, 7, 8, 9, 10], 1024) { for f in 0..3 { cases.push(Sc::Text(f, n)) } }
+    for n in scale_sizes(&[6, 7, 8, 10, 12], 4096) { for f in 0..3 { cases.push(Sc::Uri(f, n)) } }
+    // largest first, so that the big documents do not end up last on one thread
+    let weight = |c: &Sc| match *c { Sc::Content(_, n) | Sc::IdCert(_, n) => n, Sc::Delta(n) | Sc::List(n) | Sc::Errors(n) => n * 140, Sc::Classes(n) | Sc::Issued(n) => n * 4000, Sc::Text(_, n) | Sc::Uri(_, n) => n };
+    cases.sort_by_key(|c| std::cmp::Reverse(weight(c)));
+    let biggest = Mutex::new(0usize);
+    let mut failing: Vec<usize> = cases.par_iter().enumerate().filter_map(|(i, c)| {
+        let mut l = Local::default();
+        scale_case(ctx, fx, c, &mut l);
+        let bad = l.failed;
+        col.merge(l);
+        bad.then_some(i)
+    }).collect();
+    failing.sort();
+    let mut l = Local::reporting();
+    for i in failing { scale_case(ctx, fx, &cases[i], &mut l) }
+    // document sizes actually reached (measured on the three largest kinds)
+    for c in [cases.iter().find(|c| matches!(c, Sc::Content(..))), cases.iter().find(|c| matches!(c, Sc::List(_))), cases.iter().find(|c| matches!(c, Sc::Classes(_)))].into_iter().flatten() {
+        let len = match c {
+            Sc::Content(k, n) => { let mut d = publ::PublishDelta::empty(); d.add_publish(publ::Publish::new(None, scale_uri(*n), Base64::from_content(&pattern(*n, *k)))); guard(|| pub_write(&publ::Message::delta(d)).len()).unwrap_or(0) }
+            Sc::List(n) => guard(|| pub_write(&publ::Message::list_reply(publ::ListReply::new((0..*n).map(|i| publ::ListElement::new(scale_uri(i), scale_hash(i))).collect()))).len()).unwrap_or(0),
+            _ => 0,
+        };
+        let mut b = biggest.lock().unwrap(); if len > *b { *b = len }
+    }
+    sp.set("largest_publication_document_octets", serde_json::json!(*biggest.lock().unwrap()));
+    sp.set("cases", serde_json::json!(cases.len()));
+    sp.sample_str(|| format!("{:?} .. {:?}", cases.first(), cases.last()));
+    col.finish(true, ctx.tier.pick("0..=40 and power-of-two neighbourhoods: content / ID certificate to 2^20, small elements to 16384, classes / certificates to 1024, texts to 1024, URIs to 4096",
+        "0..=40 and power-of-two neighbourhoods: content to 4 MiB, ID certificate to 2^20, small elements to 65536, classes / certificates to 8192, texts to 1024, URIs to 4096"));
+}
+
+//============ The library's log statements ==================================
+
+struct TraceLog;
+static LOG_RECORDS: std::sync::atomic::AtomicU64 = std::sync::atomic::AtomicU64::new(0);
+impl log::Log for TraceLog {
+    fn enabled(&self, _: &log::Metadata) -> bool { true }
+    fn log(&self, r: &log::Record) {
+        // format the arguments, as a real logger would: a panicking Display in a log statement is a panic of the parser
+        let s = format!("{} {} {}", r.level(), r.target(), r.args());
+        std::hint::black_box(&s);
+        LOG_RECORDS.fetch_add(1, std::sync::atomic::Ordering::Relaxed);
+    }
+    fn flush(&self) {}
+}
+static TRACE_LOG: TraceLog = TraceLog;
+
 //============ Messages obtained by decoding documents =======================
 
 #[derive(Clone, Copy, PartialEq, Eq, Debug)]
@@ -2104,6 +2350,8 @@ fn space_parsers(ctx: &Ctx, fx: &Fx) {
 
 fn main() {
     let ctx = Ctx::new("C11", "exploration");
+    // a Trace-level logger that formats every record: the library's log statements run during all parses
+    if log::set_logger(&TRACE_LOG).is_ok() { log::set_max_level(log::LevelFilter::Trace) }
     ctx.assume("protocol-valid field values: handles [-_A-Za-z0-9/]{1,255} (RFC 8183 pattern; the empty handle the pattern would admit is refused by the library's own FromStr and left out); tags and class names xsd:token over printable ASCII and DEL, class names non-empty, at most 1024 characters; URIs as admitted by uri::Rsync / uri::Https with RFC 3986 characters and every letter case of scheme, authority and path, service URIs built through the public ServiceUri::Https / ServiceUri::Http variants (http scheme in every letter case) as well as through FromStr / TryFrom; resource sets in canonical form built by FromStr / all() / empty(); not-after times with whole seconds in years 1..9999 (fractional seconds are a separately named oracle); object contents of any length including 0 (RFC 8181 base64 = xsd:base64Binary without minLength); ID certificates non-empty");
     ctx.assume("non-ASCII field values are outside the property (rejected by ascii_into by design)");
     ctx.assume("quick-xml, base64, chrono and bcder are trusted as libraries; the well-formedness verdict comes from the checker in this file, quick-xml's raw reader is only a second opinion");
@@ -2115,8 +2363,10 @@ fn main() {
     space_publication(&ctx, &fx); lap("publication");
     space_provisioning(&ctx, &fx); lap("provisioning");
     space_idexchange(&ctx, &fx); lap("idexchange");
+    space_scale(&ctx, &fx); lap("scale");
     space_seeds(&ctx, &fx); lap("seeds");
     space_grammar(&ctx, &fx); lap("grammar");
     space_parsers(&ctx, &fx); lap("parsers");
+    ctx.assume(&format!("a Trace-level logger formatting every record was installed: {} of the library's log statements ran", if LOG_RECORDS.load(std::sync::atomic::Ordering::Relaxed) > 0 { "some" } else { "none" }));
     ctx.finish();
 }
